@@ -64,13 +64,13 @@ def op_strategy(draw):
                                                                   "deliver", "deliver", "deliver"]))
     op = {"op": kind}
     if kind in ("fund", "claim", "support"):
-        op.update(acct=draw(st.integers(0, 1)), chain=draw(st.sampled_from([0, 0, 0, 1])),
+        op.update(acct=draw(st.sampled_from([0, 0, 0, 1, 1, 2])), chain=draw(st.sampled_from([0, 0, 0, 1])),
                   k=draw(st.integers(-3, 3)), amount=draw(st.integers(1, 10 ** 9)),
                   nouts=draw(st.sampled_from([1, 1, 2])))
     if kind in ("spend", "abandon"):
         op.update(picks=draw(st.lists(st.integers(0, 50), min_size=1, max_size=3)),
                   dest=draw(st.sampled_from(["change", "change", "receiving", "external", "both"])),
-                  acct=draw(st.integers(0, 1)), k=draw(st.integers(0, 3)))
+                  acct=draw(st.sampled_from([0, 0, 1, 1, 2])), k=draw(st.integers(0, 3)))
     if kind in ("fund", "spend", "claim", "support", "abandon"):
         if draw(st.integers(0, 3)) == 0:
             op["third"] = [{"kind": draw(st.sampled_from(SCRIPT_KINDS)),
@@ -207,6 +207,11 @@ async def fresh_env():
     env = _ENV.get(id(loop))
     if env is None:
         env = await WalletEnv().open(n_accounts=2, receiving_gap=GAP_R, change_gap=GAP_C)
+        from lbry.wallet.account import Account
+        from vlib.wallet_harness import SEEDS
+        single = Account.from_dict(env.ledger, env.wallet, {"seed": SEEDS[2], "address_generator": {"name": "single-address"}})
+        await single.ensure_address_gap()
+        env.accounts.append(single)
         for acc in env.accounts:
             env.ledger.add_account(acc)
         await env.ledger.headers.open()
@@ -256,6 +261,10 @@ class Model:
     def address(self, acct, chain, n):
         key = (acct, chain, n)
         if key not in self.addr_cache:
+            if acct == 2:   # single-address account: one address for everything
+                pk = self.env.accounts[2].public_key
+                self.addr_cache[key] = (pk.address, self.env.ledger.address_to_hash160(pk.address))
+                return self.addr_cache[key]
             mgr = self.env.accounts[acct].address_managers[chain]
             pk = mgr.public_key.child(n)
             self.addr_cache[key] = (pk.address, self.env.ledger.address_to_hash160(pk.address))
@@ -296,6 +305,11 @@ async def run_async(case, out):
         return Input.spend(env.external_txo(amount, "c09-%d" % ext_counter[0]))
 
     def pick_address(acct, chain_no, k):
+        if acct == 2:
+            addr, h = model.address(2, 0, 0)
+            owner[h] = (2, 0, 0)
+            out.label("single_key_account")
+            return addr, h, 0
         lu = last_used[(acct, chain_no)]
         if k < 0 and lu >= 0:
             n = (-k - 1) % (lu + 1)             # reuse an already used address
@@ -307,7 +321,7 @@ async def run_async(case, out):
 
     def note_used(h):
         a, c, n = owner[h]
-        if n > last_used[(a, c)]:
+        if a != 2 and n > last_used[(a, c)]:
             last_used[(a, c)] = n
 
     def third_outputs(op):
@@ -422,8 +436,9 @@ async def run_async(case, out):
             got = r["history"] or ""
             if got != want:
                 out.violate("history-differs", "address %s n=%d: wallet %r server %r" % (r["address"], r["pubkey"].n, got[-90:], want[-90:]))
-            acct = 0 if r["account"] == env.accounts[0].id else 1
-            by_key[(acct, r["chain"], r["pubkey"].n)] = r
+            acct = [x.id for x in env.accounts].index(r["account"])
+            if acct != 2:
+                by_key[(acct, r["chain"], r["pubkey"].n)] = r
         # gap
         for (a, c), lu in last_used.items():
             ns = sorted(n for (aa, cc, n) in by_key if aa == a and cc == c)
@@ -440,7 +455,7 @@ async def run_async(case, out):
                 out.label("extra_addresses")
         # balance / utxos
         mo = wallet_outputs()
-        for a in (0, 1):
+        for a in (0, 1, 2):
             mine = [m for m in mo if owner[m[4]][0] == a]
             # an output is the wallet's only if its address was within the gap when it was funded: always true here
             spendable = {(t, n): amt for t, n, amt, kind, h in mine if kind in ("pay",)}
@@ -546,5 +561,5 @@ def run_case(case):
 PARTS = [
     Part("sync", case_strategy, run_case, 300, 3000, quick_shards=8, thorough_shards=16,
          essential=("concurrent", "spend", "claim", "support", "abandon", "mine", "fund_gap3", "spend_unconfirmed_parent",
-                    "third:multisig", "third:random")),
+                    "third:multisig", "third:random", "single_key_account")),
 ]
